@@ -42,11 +42,16 @@ def compute(sysd, case, flags):
     M = sysd['matrix']
     traj = cases.trajectory(sysd['coords'], sysd['symbols'], M, sysd['dt'], sysd['temp'])
     sites = cases.sites_structure(M, sysd['site_frac'], sysd['site_labels'])
-    radius = dict(sysd['radius']) if isinstance(sysd['radius'], dict) else (None if sysd['radius'] is None else float(sysd['radius']))
+    # (a per-label radius dict is the caller's object: the same one is handed to both analyses, as a user comparing two set-ups would)
+    radius = sysd['radius'] if isinstance(sysd['radius'], dict) else (None if sysd['radius'] is None else float(sysd['radius']))
     tr = gcall(traj.transitions_between_sites, sites, 'Li', site_radius=radius, site_inner_fraction=sysd['f'])
     out = {'states': np.asarray(tr.states), 'inner': np.asarray(tr.inner_states)}
     out['events'] = sorted(tuple(int(x) for x in r) for r in tr.events[EC].to_numpy())
     out['tmatrix'] = np.asarray(gcall(tr.matrix))
+    occ = gcall(tr.occupancy, allow=(ValueError,))  # (two atoms on one site in one frame: pymatgen refuses an occupancy above 1)
+    if not isinstance(occ, Raised):
+        out['occ'] = np.array([float(site.species.num_atoms) for site in occ])
+        out['locations'] = dict(gcall(tr.atom_locations))
     j = gcall(Jumps, tr, allow=(ValueError,))
     if isinstance(j, Raised):
         out['jumps'] = None
@@ -237,6 +242,13 @@ def run(case):
     P = np.zeros((S, S), dtype=int)
     if not np.array_equal(b['tmatrix'][np.ix_(smap, smap)], a['tmatrix']):
         fail('transitions-matrix')
+    if ('occ' in a) != ('occ' in b):
+        fail('occupancy', 'defined in only one representation')
+    if 'occ' in a:
+        if b['occ'].shape != a['occ'].shape or np.abs(b['occ'][smap] - a['occ']).max() > 1e-12:
+            fail('occupancy', f'{a["occ"].tolist()} vs {b["occ"].tolist()} (site map {smap})')
+        if set(a['locations']) != set(b['locations']) or any(abs(a['locations'][k_] - b['locations'][k_]) > 1e-12 for k_ in a['locations']):
+            fail('atom-locations', f'{a["locations"]} vs {b["locations"]}')
     if (a['jumps'] is None) != (b['jumps'] is None):
         fail('jumps', 'jumps found in only one representation')
     if a['jumps'] is not None:
